@@ -719,6 +719,23 @@ pub fn gen(r: &mut Rng, thorough: bool) -> Vec<(String, String)> {
                 v.push(("tm_section_m".into(), args.clone()));
                 v.push(("tm_section".into(), args));
             }
+            // soups (fu5): the same mesh plus a duplicated triangle (same / opposite orientation), a degenerate triangle with a
+            // repeated index on an existing edge, or a vertex used by no triangle — never flagged oriented. The section and the
+            // cutting routines are total on such input (`section_never_panics`, `local_split_never_panics`) and the models are
+            // compared bit for bit; planes through a vertex of the touched triangle, through its edge mid-point, sweep.
+            if it % 10 == 0 {
+                let (mut sv, mut si) = (mv.clone(), mi.clone());
+                match r.below(5) {
+                    0 => si.push(t), 1 => si.push([t[0], t[2], t[1]]),
+                    2 => si.push([t[0], t[0], t[1]]), 3 => { si.push([t[1], t[2], t[2]]); si.insert(0, [t[2], t[1], t[0]]); }
+                    _ => { sv.push(mv[k] + nrm * 0.5); si.push([t[2], t[2], t[2]]); } }
+                let eps = *r.pick(&[0.0, 0.0, 1e-9, 0.125]);
+                let bias = match r.below(4) {
+                    0 => ds[t[0] as usize], 1 => (ds[t[0] as usize] + ds[t[1] as usize]) * 0.5, 2 => (ds[t[1] as usize] + ds[t[2] as usize]) * 0.5 + eps,
+                    _ => lo + (hi - lo) * (r.range(1, 7) as f64) / 8.0 };
+                let args = format!("{} {} {} {}", hmesh(false, &sv, &si), d3::hv(&nrm), hx(bias), hx(eps));
+                for f in ["tm_split", "tm_verdict", "tm_cut", "tm_section_m", "tm_section"] { v.push((f.to_string(), args.clone())); }
+            }
             if it % 8 == 0 {
                 let pos = d3::gen_iso(r, true, 2.0);
                 let bias = r.lattice(8, 2);
